@@ -211,7 +211,7 @@ func baseOf(m *model, c *Case, x int) (base []string, baseState map[string]strin
 // and its class is no longer the one find-class returns) or that cannot be
 // affected (unrelated classes); watched are instances of subclasses of the
 // redefined class, whose fate is not documented: they are only counted.
-func oldItems(m0 *model, c *Case) (defs []string, judged, watched []item) {
+func oldItems(m0, m1 *model, c *Case) (defs []string, judged, watched []item) {
 	r := c.Redef.Class
 	for x := range m0.classes {
 		base, state, feats := baseOf(m0, c, x)
@@ -233,6 +233,19 @@ func oldItems(m0 *model, c *Case) (defs []string, judged, watched []item) {
 		} else {
 			watched = append(watched, it)
 		}
+	}
+	if c.Cond == "" {
+		// the old instance of the redefined class is brought up to date with
+		// change-class: it becomes an instance of the class find-class returns,
+		// keeps the slots both definitions have and gets the new ones initialised
+		_, state0, feats0 := baseOf(m0, c, r)
+		state, feats := m1.changed(r, r, state0, c.Universe)
+		what := fmt.Sprintf("<c%d> made before the redefinition of c%d, after (change-class i 'c%d):", r, r, r)
+		subs := []sub{{kind: "old-instance-updated", what: what + " (eq (class-of i) (find-class 'c" + strconv.Itoa(r) + "))", want: "t"}}
+		subs = append(subs, kinded(stateSubs(c.Universe, state, what), "old-instance-updated")...)
+		judged = append(judged, item{kind: "old-instance-updated", class: r, feats: append(append([]string{}, feats0...), feats...),
+			src:  fmt.Sprintf("(progn (change-class @o%d '@c%d) (append (list (eq (class-of @o%d) (find-class '@c%d))) (%s @o%d)))", r, r, r, r, stateFn, r),
+			subs: subs})
 	}
 	return
 }
@@ -358,9 +371,12 @@ func buildItems(m, prev *model, c *Case, phase int) []item {
 				fmt.Fprintf(&sb, " (values (subtypep '@c%d '@c%d))", x, y)
 				subs = append(subs, sub{kind: "subtypep", what: fmt.Sprintf("(subtypep 'c%d 'c%d)", x, y), want: tf(m.inherits(x, y))})
 			}
-			// the implicit base class is on every precedence list
-			fmt.Fprintf(&sb, " (values (subtypep '@c%d '%s))", x, top)
-			subs = append(subs, sub{kind: "subtypep-base", what: fmt.Sprintf("(subtypep 'c%d '%s)", x, top), want: "t"})
+			// the implicit base class is on every precedence list (condition
+			// classes only: slip has no class named standard-object for subtypep to find)
+			if c.Cond != "" {
+				fmt.Fprintf(&sb, " (values (subtypep '@c%d '%s))", x, top)
+				subs = append(subs, sub{kind: "subtypep-base", what: fmt.Sprintf("(subtypep 'c%d '%s)", x, top), want: "t"})
+			}
 			if anyK0 {
 				st, _ := m.k0State(x)
 				sb.WriteString(" (slot-exists-p i 'k0)")
@@ -882,7 +898,8 @@ func sigOf(obs, fail, when string, feats []string) string {
 	if obs == "init-twice" && fail == "wrong" && hasFeat(feats, featTwice) {
 		return "construct=" + featTwice
 	}
-	if strings.HasPrefix(obs, "class-slot-") && fail == "wrong" && hasFeat(feats, featSharedOverLocal) {
+	if strings.HasPrefix(obs, "class-slot-") && (fail == "wrong" || fail == "error") && hasFeat(feats, featSharedOverLocal) {
+		// the instance's own copy hides the class slot; without an initform it is unbound
 		return "construct=" + featSharedOverLocal
 	}
 	if obs == "subtypep-base" && fail == "wrong" {
@@ -1040,7 +1057,7 @@ func exec(x *fw.Ctx, c Case) {
 	var oldWatched []item
 	if c.Redef != nil && c.Redef.Skew < 0 {
 		var judged []item
-		oldDefs, judged, oldWatched = oldItems(m0, &c)
+		oldDefs, judged, oldWatched = oldItems(m0, m1, &c)
 		items1 = append(items1, judged...)
 	}
 	uid++
@@ -1095,17 +1112,24 @@ func exec(x *fw.Ctx, c Case) {
 	if c.Failed {
 		x.Cover("shape:failing-forms-before-every-observation-phase")
 	}
-	for k := 0; k < n; k++ {
-		if _, _, ex, over, ias := m1.sharedSlotX(k); ex {
-			if over {
-				x.Cover("shape:class-slot-over-local-slot")
+	k0Shapes := map[string]bool{}
+	for _, m := range []*model{m0, m1, m2} {
+		for k := 0; k < n; k++ {
+			if _, _, ex, over, ias := m.sharedSlotX(k); ex {
+				k0Shapes["shape:class-slot"] = true
+				if over {
+					k0Shapes["shape:class-slot-over-local-slot"] = true
+				}
+				if 0 < len(ias) {
+					k0Shapes["shape:class-slot-with-initarg"] = true
+				}
+			} else if st, under := m.k0State(k); st == "local" && under {
+				k0Shapes["shape:local-slot-over-class-slot"] = true
 			}
-			if 0 < len(ias) {
-				x.Cover("shape:class-slot-with-initarg")
-			}
-		} else if st, under := m1.k0State(k); st == "local" && under {
-			x.Cover("shape:local-slot-over-class-slot")
 		}
+	}
+	for k := range k0Shapes {
+		x.Cover(k)
 	}
 	for _, it := range append(append(append([]item{}, items0...), items1...), items2...) {
 		for _, f := range it.feats {
@@ -1402,15 +1426,18 @@ func init() {
 	fw.Register(fw.Spec[Case]{
 		ID: "C12",
 		Rule: "case = a class DAG of 2..5 classes (random supers in written order, 2..4 slot names shared by all classes so that slots shadow over several levels, " +
-			"initargs, initforms, readers/writers/accessors; some cases with a :type on one slot name, :default-initargs, a class-allocated slot k0; ~15% as condition classes), optionally one redefinition " +
-			"(after all classes or mid-sequence, possibly naming a not yet defined super), one-argument probe generics specialised on a subset of the classes and a two-argument one specialised on class pairs; " +
+			"initargs, initforms, readers/writers/accessors; some cases with a :type on one slot name, :default-initargs, a slot k0 that is class-allocated (in 40% of those also a local slot of a class below or above it, in 40% with an initarg); ~15% as condition classes), " +
+			"optionally one redefinition (after all classes or mid-sequence, possibly naming a not yet defined super) and, for 30% of the redefinitions that come last, a second one of the same class (new definition, or back to the first) or of another class; " +
+			"20% of the cases evaluate failing forms (malformed redefinition of every class, make-instance with an unknown initarg) before every observation phase; one-argument probe generics specialised on a subset of the classes and a two-argument one specialised on class pairs; " +
 			"every case is run once per definition order (all n! orders; quick samples 30 of the 120 for half of the 5-class DAGs) under fresh class names, " +
 			"and after each order every class is observed: class-precedence (also after every intermediate defclass), a fresh instance for every subset of its initargs " +
-			"(slot-exists-p/slot-boundp/slot-value of every slot name; default initargs applied), (setf slot-value), slot-makunbound, reader after slot-makunbound, wrong-typed initarg, class-slot sharing/separation/persistence, " +
-			"change-class to two other classes, typep/class-of/subtypep against every class, one- and two-argument dispatch, every applicable reader/writer/accessor, non-applicable accessors, and instances made before a redefinition. " +
-			"The first 122 cases are fixed and seed-independent: 22 shapes (chains, diamond, redefinition of root/middle/apex, every construct that had a finding) and 5 shapes of a redefined class with 3..6 direct and indirect subclasses x 20 repetitions x 8 drawn orders. " +
+			"(slot-exists-p/slot-boundp/slot-value of every slot name; default initargs applied), an initarg no slot names (first choice: one that a redefinition took away), the class named by its class object, (setf slot-value), slot-makunbound, reader after slot-makunbound, wrong-typed initarg, " +
+			"class-slot sharing/separation/persistence/makunbound/initarg/existence and local slots below a class-allocated definition, change-class to two other classes (then dispatch and readers on the changed instance, and back), typep/class-of/subtypep against every class, " +
+			"one- and two-argument dispatch, every applicable reader/writer/accessor, non-applicable accessors, instances made before a redefinition (also brought up to date with change-class). " +
+			fmt.Sprintf("The first %d cases are fixed and seed-independent: 22 shapes (chains, diamond, redefinition of root/middle/apex, every construct that had a finding), 5 shapes of a redefined class with 3..6 direct and indirect subclasses x 20 repetitions x 8 drawn orders, ", len(fixedCases)) +
+			fmt.Sprintf("and %d histories (", len(fixedCases)-122) + "two redefinitions in a row, an initarg taken away and brought back, five levels of shadowing, failing forms, a class slot whose owner is redefined / loses the slot / is taken over). " +
 			"distinct = distinct case JSON; every case is non-trivial (>= 2 classes, >= 2 orders, >= 100 evaluations). " +
-			"Kept to a minority of cases (10%): a slot with two initargs, because supplying both has the one open finding (Duplicate initarg error instead of leftmost wins).",
+			"Kept to a minority of cases: a slot with two initargs (10%), the same initarg twice (8%), a class-allocated slot above a local definition (about 3%), because each has an open finding.",
 		N:        nCases,
 		Gen:      gen,
 		Exec:     exec,
